@@ -12,7 +12,7 @@ import json
 import os
 
 import vlib
-from families import common
+from families import cfiles_util, common
 
 SOURCES = ["drv_propyaml.c", "vt.c", "vt_alloc.c"]
 TRACE = ("PropYamlTrace.tla", "PropYamlTrace.cfg")
@@ -189,9 +189,10 @@ def _nontrivial(lines):
 
 
 def _run_mode(ctx, exe, label, name, mkargs, total, stats, issues, nshards=None):
-    paths, crashes = common.run_sharded(exe, mkargs, total, ctx.work, name,
-                                        _case_index, nshards=nshards,
-                                        env=_env(ctx))
+    paths, crashes = cfiles_util.run_rounds(exe, mkargs, total, ctx.work, name,
+                                            _case_index, 150, env=_env(ctx),
+                                            nshards=nshards)
+    crashes = cfiles_util.split_timeouts(ctx, crashes, label)
     issues += issues_from_crashes(ctx, crashes, label)
     stats["crashes"] += len([c for c in crashes if c["rc"] != EXIT_LEAK])
     stats["leak_restarts"] += len([c for c in crashes if c["rc"] == EXIT_LEAK])
@@ -260,7 +261,9 @@ def replay(ctx, exe, path):
     tp = os.path.join(ctx.work, "replay.ndjson")
     open(tp, "w").close()
     crashes = common.run_cases(exe, lambda a, b: args, 0, 1, tp, lambda c: 0,
-                               max_crashes=1, env=_env(ctx))
+                               max_crashes=1, env=_env(ctx),
+                               timeout=cfiles_util.WALL_LIMIT)
+    crashes = cfiles_util.split_timeouts(ctx, crashes, "replay")
     issues = issues_from_crashes(ctx, crashes, "replay")
     if not [c for c in crashes if c["rc"] != EXIT_LEAK]:
         res = vlib.validate_sharded(TRACE[0], TRACE[1], tp, ctx.work, shards=1)
